@@ -46,6 +46,11 @@ var c13Kinds = []c13Kind{
 	{"ConfigMap", "v1", "configmaps", "data", []string{"f1", "f2", "f3"}, false, true},
 	{"Deployment", "apps/v1", "deployments", "spec", []string{"replicas", "minReadySeconds", "revisionHistoryLimit"}, true, true},
 	{"Frobnicator", "example.io/v1", "frobnicators", "spec", []string{"replicas", "minReadySeconds", "revisionHistoryLimit"}, true, false},
+	// one kind served at two versions of its group (a CRD with two `versions`): two resources of the
+	// fake cluster, one object store each - a document addresses the version it names, an omitted
+	// apiVersion the preferred one (the entry listed first, registered first in the fake's discovery)
+	{"Widget", "example.com/v1", "widgets", "spec", []string{"f1", "f2", "f3"}, false, true},
+	{"Widget", "example.com/v1alpha1", "widgets", "spec", []string{"f1", "f2", "f3"}, false, true},
 }
 var c13Namespaces = []string{"default", "prod"}
 var c13Names = []string{"a", "b"}
@@ -74,27 +79,67 @@ func c13AllKeys() []*c13Key {
 
 var c13Pool = c13AllKeys()
 
-func c13FindKey(kind, ns, name string) *c13Key {
-	for _, k := range c13Pool {
-		if strings.EqualFold(k.kind.name, kind) && k.ns == ns && k.name == name {
-			return k
+// c13KindFor: the entry a document naming (apiVersion, kind) addresses: the one served at that
+// apiVersion; an omitted apiVersion means the preferred version (the first entry of that name); an
+// apiVersion nobody serves gives the first entry of that name (the operation fails before it reaches
+// the cluster, see c13Resolvable).
+func c13KindFor(apiVersion, kind string) *c13Kind {
+	var first *c13Kind
+	for i := range c13Kinds {
+		if !strings.EqualFold(c13Kinds[i].name, kind) {
+			continue
+		}
+		if first == nil {
+			first = &c13Kinds[i]
+		}
+		if apiVersion != "" && c13Kinds[i].apiVersion == apiVersion {
+			return &c13Kinds[i]
 		}
 	}
-	return nil
+	return first
 }
 
-func c13KindByName(kind string) *c13Kind {
+// c13KindByGVR: the entry whose objects live under this resource of the fake cluster.
+func c13KindByGVR(gvr schema.GroupVersionResource) *c13Kind {
 	for i := range c13Kinds {
-		if strings.EqualFold(c13Kinds[i].name, kind) {
+		if c13Kinds[i].resource == gvr.Resource && c13Kinds[i].apiVersion == gvr.GroupVersion().String() {
 			return &c13Kinds[i]
 		}
 	}
 	return nil
 }
 
+func c13KeyOf(k *c13Kind, ns, name string) *c13Key {
+	for _, key := range c13Pool {
+		if key.kind == k && key.ns == ns && key.name == name {
+			return key
+		}
+	}
+	return nil
+}
+
+func c13FindKey(apiVersion, kind, ns, name string) *c13Key {
+	return c13KeyOf(c13KindFor(apiVersion, kind), ns, name)
+}
+
+func c13KindByName(kind string) *c13Kind { return c13KindFor("", kind) }
+
+// c13Preferred: k is the version an omitted apiVersion resolves to.
+func c13Preferred(k *c13Kind) bool { return c13KindFor("", k.name) == k }
+
+func c13KnownKeys() []*c13Key {
+	var ks []*c13Key
+	for _, k := range c13Pool {
+		if k.kind.known {
+			ks = append(ks, k)
+		}
+	}
+	return ks
+}
+
 // resolvable mirrors what GroupVersionResource(apiVersion, kind) can answer on the fake cluster.
 func c13Resolvable(apiVersion, kind string) bool {
-	k := c13KindByName(kind)
+	k := c13KindFor(apiVersion, kind)
 	return k != nil && k.known && (apiVersion == "" || apiVersion == k.apiVersion)
 }
 
@@ -493,7 +538,7 @@ func c13AbstractObject(o map[string]any) string {
 	md, _ := o["metadata"].(map[string]any)
 	name, _ := md["name"].(string)
 	ns, _ := md["namespace"].(string)
-	key := c13FindKey(kind, ns, name)
+	key := c13FindKey(av, kind, ns, name)
 	if key == nil {
 		return fmt.Sprintf("?key-%s-%s-%s", kind, ns, name)
 	}
@@ -589,7 +634,7 @@ func c13AbstractOp(info objectpatch.VerifOpInfo) string {
 }
 
 func c13Coord(info objectpatch.VerifOpInfo) string {
-	key := c13FindKey(info.Kind, info.Namespace, info.Name)
+	key := c13FindKey(info.ApiVersion, info.Kind, info.Namespace, info.Name)
 	if key == nil {
 		return fmt.Sprintf("?key-%s-%s-%s/?", info.Kind, info.Namespace, info.Name)
 	}
@@ -698,13 +743,7 @@ func (cl *c13Cluster) interfere(action clienttesting.Action) (bool, runtime.Obje
 	if !ok {
 		return false, nil, nil
 	}
-	kindName := ""
-	for i := range c13Kinds {
-		if c13Kinds[i].resource == action.GetResource().Resource {
-			kindName = c13Kinds[i].name
-		}
-	}
-	key := c13FindKey(kindName, action.GetNamespace(), u.GetName())
+	key := c13KeyOf(c13KindByGVR(action.GetResource()), action.GetNamespace(), u.GetName())
 	if key == nil {
 		return false, nil, nil
 	}
@@ -754,6 +793,13 @@ func c13NewCluster(init map[int]c13Obj, writers ...c13Writer) (*c13Cluster, erro
 	for _, ns := range c13Namespaces {
 		fc.CreateNs(ns)
 	}
+	for i := range c13Kinds {
+		// custom resources: one registration per served version (the built-in kinds are in the fake's tables)
+		if k := &c13Kinds[i]; k.known && fc.MustFindGVR(k.apiVersion, k.name) == nil {
+			gv, _ := schema.ParseGroupVersion(k.apiVersion)
+			fc.RegisterCRD(gv.Group, gv.Version, k.name, true)
+		}
+	}
 	for id, o := range init {
 		key := c13Pool[id-1]
 		b, _ := json.Marshal(c13Manifest(key, key.kind.apiVersion, o))
@@ -771,9 +817,7 @@ func c13NewCluster(init map[int]c13Obj, writers ...c13Writer) (*c13Cluster, erro
 	}
 	dyn.ClearActions()
 	cl := &c13Cluster{fc: fc, dyn: dyn, writers: append([]c13Writer{}, writers...)}
-	if len(writers) > 0 {
-		dyn.PrependReactor("update", "*", cl.interfere)
-	}
+	dyn.PrependReactor("update", "*", cl.interfere)
 	return cl, nil
 }
 
@@ -795,12 +839,6 @@ func (c c13Client) GroupVersionResource(apiVersion, kind string) (gvr schema.Gro
 func (cl *c13Cluster) actionLog() string {
 	var out []string
 	for _, a := range cl.dyn.Actions() {
-		kindName := ""
-		for i := range c13Kinds {
-			if c13Kinds[i].resource == a.GetResource().Resource {
-				kindName = c13Kinds[i].name
-			}
-		}
 		name := ""
 		verb := a.GetVerb()
 		switch x := a.(type) {
@@ -827,7 +865,8 @@ func (cl *c13Cluster) actionLog() string {
 				verb = "patch?" + string(x.GetPatchType())
 			}
 		}
-		key := c13FindKey(kindName, a.GetNamespace(), name)
+		// the object an API call reaches is named by the RESOURCE (group, version, plural) it is sent to
+		key := c13KeyOf(c13KindByGVR(a.GetResource()), a.GetNamespace(), name)
 		kid := fmt.Sprintf("?%s-%s-%s", a.GetResource().Resource, a.GetNamespace(), name)
 		if key != nil {
 			kid = strconv.Itoa(key.id)
@@ -863,7 +902,7 @@ func (cl *c13Cluster) contents() string {
 			continue
 		}
 		for _, it := range l.Items {
-			key := c13FindKey(it.GetKind(), it.GetNamespace(), it.GetName())
+			key := c13KeyOf(k, it.GetNamespace(), it.GetName()) // stored under k's resource, whatever the object says
 			if key == nil {
 				extra = append(extra, fmt.Sprintf("?obj-%s-%s-%s", it.GetKind(), it.GetNamespace(), it.GetName()))
 				continue
@@ -916,15 +955,37 @@ type c13ExecObs struct {
 	cluster  string
 }
 
-// c13Handle does what handleRunHook does with the bytes of the patch file: ParseOperations; on
-// error fail without applying anything; else ExecuteOperations and fail on its error.
-func c13Handle(data []byte, init map[int]c13Obj, writers ...c13Writer) (obs c13ExecObs) {
-	cl, err := c13NewCluster(init, writers...)
+// c13Session: one fake cluster and ONE ObjectPatcher (the operator has a single ObjectPatcher for all
+// executions of all hooks) on which the patch files of successive executions are handled.
+type c13Session struct {
+	cl      *c13Cluster
+	patcher *objectpatch.ObjectPatcher
+	dead    string
+}
+
+func c13NewSession(init map[int]c13Obj) (*c13Session, error) {
+	cl, err := c13NewCluster(init)
 	if err != nil {
-		return c13ExecObs{ans: "harness-error " + err.Error()}
+		return nil, err
 	}
+	return &c13Session{cl: cl, patcher: objectpatch.NewObjectPatcher(c13Client{cl.fc.Client}, log.NewNop())}, nil
+}
+
+// handle does what handleRunHook does with the bytes of the patch file of one execution:
+// ParseOperations; on error fail without applying anything; else ExecuteOperations and fail on its
+// error. The API-call log starts anew; `writers` is the history of the other clients during this execution.
+func (s *c13Session) handle(data []byte, writers []c13Writer) (obs c13ExecObs) {
+	if s.dead != "" {
+		return c13ExecObs{ans: "not-run (an earlier execution of this case ended with " + s.dead + ")"}
+	}
+	cl := s.cl
+	cl.mu.Lock()
+	cl.writers = append([]c13Writer{}, writers...)
+	cl.mu.Unlock()
+	cl.dyn.ClearActions()
 	defer func() {
 		if p := recover(); p != nil {
+			s.dead = "a panic"
 			obs = c13ExecObs{ans: "panic " + firstLine(fmt.Sprint(p)) + " @ " + c13PanicSite(), executed: true, fail: true, log: "?", cluster: "?"}
 		}
 	}()
@@ -934,8 +995,7 @@ func c13Handle(data []byte, init map[int]c13Obj, writers ...c13Writer) (obs c13E
 		c := cl.contents()
 		return c13ExecObs{ans: "skipped fail=1 cluster=" + c, executed: false, fail: true, log: lg, cluster: c}
 	}
-	patcher := objectpatch.NewObjectPatcher(c13Client{cl.fc.Client}, log.NewNop())
-	err = patcher.ExecuteOperations(ops)
+	err = s.patcher.ExecuteOperations(ops)
 	nerr := 0
 	if err != nil {
 		nerr = 1
@@ -944,6 +1004,7 @@ func c13Handle(data []byte, init map[int]c13Obj, writers ...c13Writer) (obs c13E
 		}
 	}
 	lg := cl.actionLog()
+	cl.dyn.ClearActions()
 	c := cl.contents()
 	if cl.werr != "" {
 		return c13ExecObs{ans: "harness-error " + cl.werr}
@@ -1036,6 +1097,9 @@ func (g *c13Gen) apiVersionFor(k *c13Key) (string, bool) {
 	case r < 6:
 		return k.kind.apiVersion, true
 	case r < 9:
+		if !c13Preferred(k.kind) {
+			return k.kind.apiVersion, true // an omitted apiVersion would address the preferred version's object
+		}
 		return "", true
 	}
 	return "bogus/v9", true
@@ -1078,6 +1142,7 @@ func (g *c13Gen) genCreate() c13Doc {
 		}
 	}
 	mf := c13Manifest(key, av, o)
+	key = c13FindKey(av, key.kind.name, key.ns, key.name) // an apiVersion nobody serves names no particular version
 	d := c13Doc{valid: true, family: "create:" + mode, key: key.id, locks: mode == "CreateOrUpdate"}
 	gvr := c13Resolvable(av, key.kind.name)
 	desc := fmt.Sprintf("C/%s/%d/%s/%s", fl, key.id, c13B01(gvr), c13ObjTok(key.kind, o))
@@ -1103,8 +1168,10 @@ func (g *c13Gen) genCreate() c13Doc {
 	return d
 }
 
-func (g *c13Gen) coords(m map[string]any, key *c13Key) bool {
+func (g *c13Gen) coords(m map[string]any, keyp **c13Key) bool {
+	key := *keyp
 	av, _ := g.apiVersionFor(key)
+	*keyp = c13FindKey(av, key.kind.name, key.ns, key.name) // an apiVersion nobody serves names no particular version
 	if av != "" {
 		m["apiVersion"] = av
 	}
@@ -1123,7 +1190,7 @@ func (g *c13Gen) genDelete() c13Doc {
 	p := map[string]string{"Delete": "fg", "DeleteInBackground": "bg", "DeleteNonCascading": "or"}[mode]
 	key := g.key()
 	m := map[string]any{"operation": mode}
-	gvr := g.coords(m, key)
+	gvr := g.coords(m, &key)
 	if rng.Chance(20) {
 		m["subresource"] = "status" // accepted by the schema, not used by delete operations
 	}
@@ -1144,7 +1211,7 @@ func (g *c13Gen) genPatch() c13Doc {
 	}
 	k := key.kind
 	m := map[string]any{}
-	gvr := g.coords(m, key)
+	gvr := g.coords(m, &key)
 	sub, subID := g.sub()
 	if sub != "" {
 		m["subresource"] = sub
@@ -1394,7 +1461,7 @@ func c13Init(rng *Rng, hot []*c13Key) (map[int]c13Obj, string) {
 		}
 	}
 	if rng.Chance(25) {
-		k := PickOne(rng, c13Pool[:8])
+		k := PickOne(rng, c13KnownKeys())
 		init[k.id] = c13Obj{1: rng.Range(1, 9)}
 	}
 	return init, c13InitTok(init)
@@ -1416,34 +1483,64 @@ func c13InitTok(init map[int]c13Obj) string {
 	return strings.Join(ps, ";")
 }
 
+// c13Exec1: the patch file of one execution + the history of the other clients while it is handled.
+type c13Exec1 struct {
+	docs    []c13Doc
+	garbled bool
+	writers []c13Writer
+}
+
 func c13RunCase(c *Case, rng *Rng, init map[int]c13Obj, initTok string, docs []c13Doc, garbled bool, writers ...c13Writer) {
+	c13RunSeq(c, rng, init, initTok, []c13Exec1{{docs, garbled, writers}})
+}
+
+// c13RunSeq: successive executions on one cluster and one ObjectPatcher (per rendering). Each
+// execution is judged by the property on the cluster state it started from (line `next`: the state the
+// documented semantics give for the executions so far).
+func c13RunSeq(c *Case, rng *Rng, init map[int]c13Obj, initTok string, runs []c13Exec1) {
 	c.Op("init "+initTok, "cluster="+initTok)
-	c.Op("garbled "+c13B01(garbled), "ok")
-	c.Op("writers "+c13WritersTok(writers), "ok")
-	for _, d := range docs {
-		x := ""
-		if d.extra {
-			x = " x"
+	sessions := map[string]*c13Session{}
+	for i, run := range runs {
+		if i > 0 {
+			c.Op("next", "ok")
 		}
-		c.Op(fmt.Sprintf("doc %s %s %s%s", c13B01(d.valid), c13B01(d.inline), d.desc, x), "ok")
+		c.Op("garbled "+c13B01(run.garbled), "ok")
+		c.Op("writers "+c13WritersTok(run.writers), "ok")
+		for _, d := range run.docs {
+			x := ""
+			if d.extra {
+				x = " x"
+			}
+			c.Op(fmt.Sprintf("doc %s %s %s%s", c13B01(d.valid), c13B01(d.inline), d.desc, x), "ok")
+		}
+		renderings := map[string][]byte{
+			"json": c13RenderJSON(run.docs, run.garbled, rng),
+			"yaml": c13RenderYAML(run.docs, run.garbled, rng.Intn(60)),
+		}
+		sig := map[string]string{}
+		for _, form := range []string{"json", "yaml"} {
+			data := renderings[form]
+			c.Op("note "+form+" rendering: "+string(data), "ok")
+			pans, ptok, perr := c13Parse(data)
+			c.Op("parse "+form, pans)
+			c.Oracle(fmt.Sprintf("parse form=%s err=%s ops=%s", form, c13B01(perr), ptok))
+			var obs c13ExecObs
+			if sessions[form] == nil {
+				s, err := c13NewSession(init)
+				if err != nil {
+					obs = c13ExecObs{ans: "harness-error " + err.Error()}
+				}
+				sessions[form] = s
+			}
+			if s := sessions[form]; s != nil {
+				obs = s.handle(data, run.writers)
+			}
+			c.Op("exec "+form, obs.ans)
+			c.Oracle(fmt.Sprintf("exec form=%s executed=%s fail=%s log=%s cluster=%s", form, c13B01(obs.executed), c13B01(obs.fail), obs.log, obs.cluster))
+			sig[form] = strings.ReplaceAll(pans+"|"+obs.ans, " ", ",")
+		}
+		c.Oracle(fmt.Sprintf("agree json=%s yaml=%s", sig["json"], sig["yaml"]))
 	}
-	renderings := map[string][]byte{
-		"json": c13RenderJSON(docs, garbled, rng),
-		"yaml": c13RenderYAML(docs, garbled, rng.Intn(60)),
-	}
-	sig := map[string]string{}
-	for _, form := range []string{"json", "yaml"} {
-		data := renderings[form]
-		c.Op("note "+form+" rendering: "+string(data), "ok")
-		pans, ptok, perr := c13Parse(data)
-		c.Op("parse "+form, pans)
-		c.Oracle(fmt.Sprintf("parse form=%s err=%s ops=%s", form, c13B01(perr), ptok))
-		obs := c13Handle(data, init, writers...)
-		c.Op("exec "+form, obs.ans)
-		c.Oracle(fmt.Sprintf("exec form=%s executed=%s fail=%s log=%s cluster=%s", form, c13B01(obs.executed), c13B01(obs.fail), obs.log, obs.cluster))
-		sig[form] = strings.ReplaceAll(pans+"|"+obs.ans, " ", ",")
-	}
-	c.Oracle(fmt.Sprintf("agree json=%s yaml=%s", sig["json"], sig["yaml"]))
 }
 
 // c13Reseed: lib.go seeds case idx with NewRng(seed*1000003+idx) and the generator's state is additive,
@@ -1501,65 +1598,163 @@ func (g *c13Gen) stream(c *Case) ([]c13Doc, bool, string) {
 	return docs, garbled, mode
 }
 
-func c13Random(c *Case, rng *Rng) {
-	rng = c13Reseed(rng)
-	g := &c13Gen{rng: rng, c: c}
-	nhot := rng.Range(1, 3)
-	for i := 0; i < nhot; i++ {
-		if rng.Chance(90) {
-			g.hot = append(g.hot, PickOne(rng, c13Pool[:8]))
-		} else {
-			g.hot = append(g.hot, PickOne(rng, c13Pool[8:]))
+// c13Versioned: the keys of the kinds served at more than one version, grouped by (namespace, name):
+// the "same" object at each version.
+func c13Versioned() [][]*c13Key {
+	var out [][]*c13Key
+	for _, k := range c13Pool {
+		if !k.kind.known || !c13Preferred(k.kind) {
+			continue
+		}
+		grp := []*c13Key{k}
+		for _, o := range c13Pool {
+			if o != k && o.kind.known && o.kind.name == k.kind.name && o.ns == k.ns && o.name == k.name {
+				grp = append(grp, o)
+			}
+		}
+		if len(grp) > 1 {
+			out = append(out, grp)
 		}
 	}
-	init, initTok := c13Init(rng, g.hot)
-	docs, garbled, mode := g.stream(c)
-	n := len(docs)
-	// the history of the other clients: changes of somebody else that land between a Get and the
-	// Update of an operation that writes under the optimistic lock (CreateOrUpdate, JQPatch)
+	return out
+}
+
+// otherWriters generates the history of the other clients for one execution: changes of somebody else
+// that land between a Get and the Update of an operation that writes under the optimistic lock
+// (CreateOrUpdate, JQPatch). init != nil: the objects concerned may be added to the initial state.
+func (g *c13Gen) otherWriters(docs []c13Doc, init map[int]c13Obj) []c13Writer {
+	rng := g.rng
 	var writers []c13Writer
-	if rng.Chance(45) {
-		for _, d := range docs {
-			if !d.locks || d.key == 0 || d.key > 8 || !rng.Chance(70) {
-				continue
-			}
+	for _, d := range docs {
+		if !d.locks || d.key == 0 || !c13Pool[d.key-1].kind.known || !rng.Chance(70) {
+			continue
+		}
+		if init != nil {
 			if _, ok := init[d.key]; !ok && rng.Chance(60) {
 				init[d.key] = g.obj()
 			}
-			nw := 1
-			switch r := rng.Intn(100); {
-			case r < 8:
-				nw = rng.Range(4, 5) // the retry budget (retry.DefaultBackoff: 4 attempts) is used up
-			case r < 35:
-				nw = rng.Range(2, 3)
-			}
-			for ; nw > 0; nw-- {
-				w := c13Writer{key: d.key}
-				for e := rng.Range(1, 2); e > 0; e-- {
-					if rng.Chance(70) {
-						w.edits = append(w.edits, c13Edit{"set", rng.Range(1, 3), rng.Range(1, 9)})
-					} else {
-						w.edits = append(w.edits, c13Edit{"del", rng.Range(1, 3), 0})
-					}
+		}
+		nw := 1
+		switch r := rng.Intn(100); {
+		case r < 8:
+			nw = rng.Range(4, 5) // the retry budget (retry.DefaultBackoff: 4 attempts) is used up
+		case r < 35:
+			nw = rng.Range(2, 3)
+		}
+		for ; nw > 0; nw-- {
+			w := c13Writer{key: d.key}
+			for e := rng.Range(1, 2); e > 0; e-- {
+				if rng.Chance(70) {
+					w.edits = append(w.edits, c13Edit{"set", rng.Range(1, 3), rng.Range(1, 9)})
+				} else {
+					w.edits = append(w.edits, c13Edit{"del", rng.Range(1, 3), 0})
 				}
-				writers = append(writers, w)
+			}
+			writers = append(writers, w)
+		}
+	}
+	if len(writers) > 1 && rng.Chance(30) {
+		rng.Shuffle(len(writers), func(a, b int) { writers[a], writers[b] = writers[b], writers[a] })
+	}
+	return writers
+}
+
+func c13Random(c *Case, rng *Rng) {
+	rng = c13Reseed(rng)
+	g := &c13Gen{rng: rng, c: c}
+	known := c13KnownKeys()
+	// 30%: the case is about a kind served at two versions - the hot objects are the same (namespace,
+	// name) at both versions (two different objects of the cluster), so that streams and successive
+	// executions address both versions of one group/kind
+	twoVersions := rng.Chance(30)
+	if twoVersions {
+		g.hot = append(g.hot, PickOne(rng, c13Versioned())...)
+		if rng.Chance(35) {
+			g.hot = append(g.hot, PickOne(rng, known))
+		}
+	} else {
+		nhot := rng.Range(1, 3)
+		for i := 0; i < nhot; i++ {
+			if rng.Chance(90) {
+				g.hot = append(g.hot, PickOne(rng, known))
+			} else {
+				g.hot = append(g.hot, PickOne(rng, c13Pool))
 			}
 		}
-		if len(writers) > 1 && rng.Chance(30) {
-			rng.Shuffle(len(writers), func(a, b int) { writers[a], writers[b] = writers[b], writers[a] })
-		}
-		initTok = c13InitTok(init)
 	}
-	if len(writers) > 0 {
-		c.Note(fmt.Sprintf("other-writers:%d", len(writers)))
+	init, initTok := c13Init(rng, g.hot)
+	// successive executions (patch files of hook runs one after the other) on the same cluster and the
+	// same ObjectPatcher: 1 (55%; two-version cases 25%), 2 or 3
+	nruns := 1
+	if r := rng.Intn(100); (twoVersions && r < 75) || r < 45 {
+		nruns = rng.Range(2, 3)
+	}
+	withWriters := rng.Chance(45)
+	var runs []c13Exec1
+	ndocs, nwriters := 0, 0
+	var descs []string
+	for i := 0; i < nruns; i++ {
+		docs, garbled, mode := g.stream(c)
+		if nruns > 1 && i < nruns-1 && mode != "valid" && rng.Chance(60) {
+			docs, garbled, mode = g.stream(c) // mostly valid files before the last execution
+		}
+		var writers []c13Writer
+		if withWriters {
+			if i == 0 {
+				writers = g.otherWriters(docs, init)
+				initTok = c13InitTok(init)
+			} else {
+				writers = g.otherWriters(docs, nil)
+			}
+		}
+		runs = append(runs, c13Exec1{docs, garbled, writers})
+		ndocs += len(docs)
+		nwriters += len(writers)
+		c.Note("stream:" + mode)
+		c.Note(fmt.Sprintf("docs:%d", len(docs)))
+		for _, d := range docs {
+			c.Note("op:" + d.family)
+		}
+		descs = append(descs, fmt.Sprintf("%d docs %s, other writers=%s", len(docs), mode, c13WritersTok(writers)))
+	}
+	if nwriters > 0 {
+		c.Note(fmt.Sprintf("other-writers:%d", nwriters))
 	} else {
 		c.Note("other-writers:0")
 	}
-	c.Note("stream:" + mode)
-	c.Note(fmt.Sprintf("docs:%d", n))
-	for _, d := range docs {
-		c.Note("op:" + d.family)
+	c.Note(fmt.Sprintf("executions:%d", nruns))
+	// how many (group, kind) pairs are addressed at two versions within the case, and whether across executions
+	type gk struct {
+		ver map[string]int // apiVersion -> first execution that addressed it
 	}
+	seen := map[string]*gk{}
+	cross, within := false, false
+	for i, run := range runs {
+		for _, d := range run.docs {
+			if d.key == 0 || !d.valid {
+				continue
+			}
+			k := c13Pool[d.key-1].kind
+			e := seen[k.name]
+			if e == nil {
+				e = &gk{ver: map[string]int{}}
+				seen[k.name] = e
+			}
+			for v, at := range e.ver {
+				if v != k.apiVersion {
+					if at == i {
+						within = true
+					} else {
+						cross = true
+					}
+				}
+			}
+			if _, ok := e.ver[k.apiVersion]; !ok {
+				e.ver[k.apiVersion] = i
+			}
+		}
+	}
+	c.Note(fmt.Sprintf("one-kind-at-two-versions:within-a-stream=%v,across-executions=%v", within, cross))
 	if g.ints {
 		c.Note("inline-object-with-integer-field")
 	}
@@ -1568,14 +1763,18 @@ func c13Random(c *Case, rng *Rng) {
 	} else {
 		c.Note("scalars-typed-differently-by-the-decoders:0")
 	}
-	c.Desc = fmt.Sprintf("%d docs, %s, init=%s, other writers=%s", n, mode, initTok, c13WritersTok(writers))
-	c.Nontrivial = n >= 2
-	c13RunCase(c, rng, init, initTok, docs, garbled, writers...)
+	c.Desc = fmt.Sprintf("%d execution(s): %s; init=%s", nruns, strings.Join(descs, " | "), initTok)
+	c.Nontrivial = ndocs >= 2
+	c13RunSeq(c, rng, init, initTok, runs)
 }
 
 func runC13(r *Run) {
-	r.Rule = "a case = initial cluster (0-4 objects among 8 keys of 2 kinds x 2 namespaces x 2 names, plus an unregistered kind) " +
-		"+ a stream of 1-6 operation documents (3 create variants, 3 delete modes, merge/JSON/jq patches with subresource, " +
+	r.Rule = "a case = initial cluster (0-4 objects among 16 keys: ConfigMap, Deployment and a custom kind Widget served at two versions of its group " +
+		"(example.com/v1 preferred, example.com/v1alpha1: two resources, one object store each) x 2 namespaces x 2 names, plus an unregistered kind) " +
+		"+ 1-3 successive executions (55% one; each with its own patch file, all on the same cluster and the same ObjectPatcher, each judged on the state the " +
+		"documented semantics give for the ones before) - 30% of the cases are about the same (namespace, name) of the Widget at both versions, addressed " +
+		"within one stream and across executions (apiVersion explicit, or omitted = preferred version) - " +
+		"a patch file = a stream of 1-6 operation documents (3 create variants, 3 delete modes, merge/JSON/jq patches with subresource, " +
 		"ignoreMissingObject, payloads inline / JSON string / YAML string / undecodable string; Deployment payloads carry integer fields) " +
 		"that is valid (53%), has exactly one invalid document (24%: unknown operation, extra property, missing required field, wrong payload type, " +
 		"empty payload, non-string operation, a required field / non-empty string missing inside the first jsonPatch item), has an invalid document " +
@@ -1740,6 +1939,91 @@ func runC13(r *Run) {
 		init := map[int]c13Obj{dep.id: {1: 1}}
 		c13RunCase(c, rng, init, c13InitTok(init), docs, false)
 	})
+	// corpus: one kind served at two versions, addressed at both within a stream and across executions
+	{
+		w1, wa := c13FindKey("example.com/v1", "Widget", "default", "a"), c13FindKey("example.com/v1alpha1", "Widget", "default", "a")
+		coords := func(m map[string]any, k *c13Key) map[string]any {
+			m["apiVersion"], m["kind"], m["namespace"], m["name"] = k.kind.apiVersion, k.kind.name, k.ns, k.name
+			return m
+		}
+		merge := func(k *c13Key, f, n int) c13Doc {
+			return c13Doc{valid: true, inline: true, family: "patch:m", key: k.id,
+				m:    coords(map[string]any{"operation": "MergePatch", "mergePatch": map[string]any{"spec": map[string]any{k.kind.fields[f-1]: k.kind.val(n)}}}, k),
+				desc: fmt.Sprintf("P/m/%d/1/0/00/set.%d.%s", k.id, f, k.kind.tok(n))}
+		}
+		del := func(k *c13Key) c13Doc {
+			return c13Doc{valid: true, inline: true, family: "delete:DeleteInBackground", key: k.id,
+				m: coords(map[string]any{"operation": "DeleteInBackground"}, k), desc: fmt.Sprintf("D/bg/%d/1/0", k.id)}
+		}
+		jq := func(k *c13Key, f, n int) c13Doc {
+			return c13Doc{valid: true, family: "patch:q", key: k.id, locks: true,
+				m:    coords(map[string]any{"operation": "JQPatch", "jqFilter": fmt.Sprintf(`.spec.%s = "s%d"`, k.kind.fields[f-1], n)}, k),
+				desc: fmt.Sprintf("P/q/%d/1/0/00/set.%d.s%d", k.id, f, n)}
+		}
+		cou := func(k *c13Key, o c13Obj) c13Doc {
+			return c13Doc{valid: true, inline: true, family: "create:CreateOrUpdate", key: k.id, locks: true,
+				m:    map[string]any{"operation": "CreateOrUpdate", "object": c13Manifest(k, k.kind.apiVersion, o)},
+				desc: fmt.Sprintf("C/01/%d/1/%s", k.id, c13ObjTok(k.kind, o))}
+		}
+		seqs := []struct {
+			desc string
+			init map[int]c13Obj
+			runs []c13Exec1
+		}{
+			{"merge patches of the v1alpha1 and of the v1 object in one stream, then (next execution) a delete of the v1 object",
+				map[int]c13Obj{w1.id: {1: 1}, wa.id: {1: 2}},
+				[]c13Exec1{{docs: []c13Doc{merge(wa, 2, 3), merge(w1, 3, 4)}}, {docs: []c13Doc{del(w1)}}}},
+			{"CreateOrUpdate at v1, next execution: jq patch and delete at v1alpha1, third execution: jq patch at v1",
+				map[int]c13Obj{wa.id: {1: 5}},
+				[]c13Exec1{{docs: []c13Doc{cou(w1, c13Obj{2: 6})}}, {docs: []c13Doc{jq(wa, 3, 7), del(wa)}}, {docs: []c13Doc{jq(w1, 1, 8)}}}},
+		}
+		if r.Thorough() {
+			// exhaustive small scope: every sequence of 1-3 operations over {merge patch, jq patch, background
+			// delete, CreateOrUpdate} x {v1, v1alpha1} of one Widget, cut into successive executions in every
+			// possible way, on both initial states (both objects absent / present)
+			alphabet := []c13Doc{merge(w1, 1, 3), merge(wa, 1, 4), jq(w1, 2, 5), jq(wa, 2, 6), del(w1), del(wa), cou(w1, c13Obj{3: 7}), cou(wa, c13Obj{3: 8})}
+			A := len(alphabet)
+			type shape struct{ l, seq, cut int }
+			var shapes []shape
+			for l, p := 1, A; l <= 3; l, p = l+1, p*A {
+				for seq := 0; seq < p; seq++ {
+					for cut := 0; cut < 1<<(l-1); cut++ {
+						shapes = append(shapes, shape{l, seq, cut})
+					}
+				}
+			}
+			r.Cases(2000000, 2*len(shapes), 64, func(c *Case, rng *Rng) {
+				k := c.Idx - 2000000
+				present := k%2 == 1
+				sh := shapes[k/2]
+				var runs []c13Exec1
+				cur := c13Exec1{}
+				for i, q := 0, sh.seq; i < sh.l; i, q = i+1, q/A {
+					cur.docs = append(cur.docs, alphabet[q%A])
+					if i == sh.l-1 || sh.cut&(1<<i) != 0 {
+						runs = append(runs, cur)
+						cur = c13Exec1{}
+					}
+				}
+				init := map[int]c13Obj{}
+				if present {
+					init = map[int]c13Obj{w1.id: {1: 1}, wa.id: {1: 2}}
+				}
+				c.Nontrivial = sh.l >= 2
+				c13RunSeq(c, rng, init, c13InitTok(init), runs)
+			})
+			r.Extra["exhaustive_scope_two_versions"] = fmt.Sprintf("all %d ways to cut a sequence of 1-3 operations over an %d-symbol alphabet (merge / jq patch, delete, CreateOrUpdate x Widget at v1 / v1alpha1) into successive executions x (objects absent | present)", len(shapes), A)
+		}
+		for i, sq := range seqs {
+			sq := sq
+			r.One(18+i, func(c *Case, rng *Rng) {
+				c.Desc = "corpus (one kind at two versions): " + sq.desc
+				c.Nontrivial = true
+				c.Note("corpus")
+				c13RunSeq(c, rng, sq.init, c13InitTok(sq.init), sq.runs)
+			})
+		}
+	}
 	n := r.N(400, 6000)
 	r.Cases(100, n, 64, c13Random)
 	// operator-level: real hook processes, Hook.Run, handleRunHook (hook succeeded / failed), two
